@@ -164,6 +164,28 @@ def rule_r2_header(ctx, rid="C02.R2"):
         else:
             cases.append((r, v))
         for (dn, expr) in cases:
+            if isinstance(expr, ast.Call) and dotted(expr.func) in ("min", "max") and len(expr.args) >= 2 and not expr.keywords:
+                # min/max picks one of its operands: the count is right for every read only if the operand picked is
+                # identically the wanted form.  No operand of that form: wrong whichever is picked; some but not all:
+                # which one is picked depends on runtime values - not decided here.
+                try:
+                    alts = [ex.value(a, dn) for a in expr.args]
+                except AnalysisError as e:
+                    ctx.r.error(rid, "header-phase return %s: %s" % (norm(expr), e))
+                    continue
+                cutsyms = sorted({k for v in alts for k in v.t if k.startswith("cut(")})
+                if cutsyms:
+                    want = Lin.sym(cutsyms[0]) - H
+                    n_checked += 1
+                    if not any(v == want for v in alts):
+                        ctx.r.violation(rid, key_of(f, None, "header-consumed::" + norm(expr)[:40]),
+                                        "when the head ends inside this read the parser reports %s consumed, one of %s; none of them is cut - len(header_plus) (carried bytes are not part of this read): with a head split across reads the count is off and the following bytes are skipped or re-read"
+                                        % (norm(expr), [str(v) for v in alts]), f.loc(dn.ast))
+                    elif all(v == want for v in alts):
+                        ctx.r.ok(rid, "head found: consumed = cut - len(header_plus)  [%s]" % want, f.loc(dn.ast))
+                    else:
+                        ctx.r.error(rid, "header-phase return %s: which operand is taken depends on runtime values" % norm(expr))
+                    continue
             try:
                 val = ex.value(expr, dn)
             except AnalysisError as e:
@@ -658,7 +680,14 @@ def rule_r5(ctx):
     c19.rule_r3(ctx, rid="C02.R5")
 
 
-RULES = [rule_r1, rule_r2_header, rule_r2_receivers, rule_r3, rule_r4, rule_r5]
+def rule_r6(ctx):
+    """Shared with C19.R2: the deferred interim response is sent by the worker only for the last queued request, so its
+    position among the final responses is the same however the pipelined requests were cut into reads."""
+    from . import c19
+    c19.rule_r2(ctx, rid="C02.R6")
+
+
+RULES = [rule_r1, rule_r2_header, rule_r2_receivers, rule_r3, rule_r4, rule_r5, rule_r6]
 
 from ..selftest import M, T, V  # noqa: E402
 
